@@ -837,6 +837,8 @@ class Interp:
                 return r.value
             return None
         finally:
+            if self.depth == 1:
+                self.last_top_env = fr.env      # locals of the function under contract at its exit (ghost access: local('x'))
             self.depth -= 1
             self.frames.pop()
 
@@ -1182,7 +1184,10 @@ class Interp:
             self.check_invariants(spec, fr, tag, 'preserve', s.lineno)
             raise PathEnd('loop body end')
         else:
-            self.assume(z3.And(k.e >= loz, k.e >= hiz, z3.Or(k.e == hiz, k.e == loz)))
+            if not self.feasible(hiz < loz):
+                self.assume(k.e == hiz)        # the range is never empty-by-inversion: the index ends at hi
+            else:
+                self.assume(z3.And(k.e >= loz, k.e >= hiz, z3.Or(k.e == hiz, k.e == loz)))
             fr.env[idx] = k
             self.assume_invariants(spec, fr)
             self.assume_lemmas(spec.get('exit_lemmas', []), fr)
@@ -1278,6 +1283,7 @@ class Interp:
             self.assume(g if not is_symbolic(g) else ops.z3bool(g))
 
     lemmas_used = set()
+    last_top_env = {}
 
     def assume_invariants(self, spec, fr):
         for inv in spec.get('invariant', []):
